@@ -195,6 +195,39 @@ fn arbitrary_driver(seed: u64, n: u64, out: &str) -> i32 {
         }).collect();
         inputs.push(v);
     }
+    // token streams: the generators read length prefixes (8-byte little-endian), option / variant
+    // selectors (1 byte) and text; small prefixes followed by UTF-8-hostile text reach the paths a
+    // uniformly random stream (whose prefixes are always clamped to the capacity) never takes
+    let hostile: [&[u8]; 14] = [b"\xC3\xA9", b"\xE2\x82\xAC", b"\xF0\x9F\x98\x80", b"\xED\xA0\x80", b"\xE0\x80\x80",
+        b"\xF0\x80\x80\x80", b"\xF4\x90\x80\x80", b"\xC0\x80", b"\x80", b"\xF0\x9F\x98", b"\xE2\x82", b"\xC3", b"\xEF\xBF\xBF", b"\xF4\x8F\xBF\xBF"];
+    let small: [u64; 16] = [0, 1, 2, 3, 4, 7, 30, 31, 32, 33, 61, 62, 63, 64, 65, 66];
+    let caps: [u64; 12] = [125, 126, 127, 128, 129, 253, 254, 255, 256, 257, 300, 1000];
+    let extra = (n / 2) as usize;
+    for k in 0..extra {
+        let mut v: Vec<u8> = vec![];
+        // a command selector first so that the text-bearing variants are reached often
+        if k % 2 == 0 { v.extend_from_slice(&[0, 0, 0, 0]); } else { v.push(rng.byte()); v.push(rng.byte()); }
+        let toks = 6 + rng.below(40);
+        for _ in 0..toks {
+            match rng.below(7) {
+                0 => v.extend_from_slice(&small[rng.below(16)].to_le_bytes()),
+                1 => v.extend_from_slice(&caps[rng.below(12)].to_le_bytes()),
+                2 => v.extend_from_slice(hostile[rng.below(14)]),
+                3 => { let l = rng.below(130); for _ in 0..l { v.push(b'a' + (rng.below(26) as u8)); } }
+                4 => { let l = 60 + rng.below(8); for _ in 0..l { v.push(b'a'); } v.extend_from_slice(hostile[rng.below(14)]); }
+                5 => v.push(rng.byte() & 1),
+                _ => v.push(rng.byte()),
+            }
+        }
+        // long ASCII runs ending in a (possibly split) multi-byte character right at a capacity
+        if rng.below(3) == 0 {
+            let l = [61usize, 62, 63, 125, 126, 127, 253, 254, 255][rng.below(9)];
+            for _ in 0..l { v.push(b'b'); }
+            v.extend_from_slice(hostile[rng.below(14)]);
+            v.extend_from_slice(&[0u8; 24]);
+        }
+        inputs.insert(k * 2 % (inputs.len().max(1)), v);
+    }
     let mut line = 0u64;
     for data in inputs.iter().take(n as usize) {
         for g in gens {
